@@ -312,6 +312,21 @@ pub fn random_case(rng: &mut Rng, big: bool) -> GenCase {
     GenCase { label: format!("random {sig:?}"), params, pcm, plans }
 }
 
+/// one or two 16-24 sample frames, 1-2 channels (Miri tier)
+pub fn tiny_case(rng: &mut Rng) -> GenCase {
+    let channels = rng.usize(1, 2) as u8;
+    let bps = *rng.pick(&[8u8, 12, 16, 24, 32]);
+    let mut params = StreamParams::simple(channels, bps, 44100);
+    params.total_known = rng.chance(1, 2);
+    let bs = *rng.pick(&[16usize, 20, 24]);
+    let total = bs + rng.usize(0, 6);
+    let sig = *rng.pick(&ALL_SIGNALS);
+    let pcm = pcm_for(sig, channels as usize, bps as u32, total, rng.next());
+    let blocks = split_blocks(rng, total, bs, false);
+    let plans = blocks.iter().map(|b| random_frame_plan(rng, &params, *b)).collect();
+    GenCase { label: format!("tiny {sig:?}"), params, pcm, plans }
+}
+
 fn case_json(c: &GenCase, bytes: &[u8]) -> J {
     J::obj()
         .set("label", c.label.as_str())
